@@ -194,7 +194,7 @@ def check_sums(F, S, tss, classes, s, roles, inv, post_expect, out_expect, rid, 
                 # only a quantity that is non-negative by what it IS (a sum of squared deviations) may be clamped at 0 for free;
                 # clamping a signed sum or a mean changes it
                 ok = u.eq(got, want) or (r_ in NONNEG_ROLES and inactive_clamp(got, want, u.eq))
-                if ok:
+                if ok and not zero:   # (in the first-call case the pre-state is the literal 0: hazards are read off the generic cases)
                     import specs
                     hz = specs.float_hazard(heap.get("self." + b[r_], ("pre", "self." + b[r_])), want, pre_map)
                     if hz:
@@ -225,7 +225,7 @@ def check_sums(F, S, tss, classes, s, roles, inv, post_expect, out_expect, rid, 
                             alts.append(sub(got, {x: keep}))
                 if not any(u.N.key(a_) == u.N.key(oe) or u.eq(a_, oe) for a_ in alts):
                     fails.append("%s%s: output %s is not %s" % (which, " (first call)" if zero else "", show(got)[:110], show(oe)[:90]))
-                else:
+                elif not zero:
                     import specs
                     hz = specs.float_hazard(ret, oe, pre_map)
                     if hz:
@@ -428,7 +428,7 @@ def extreme_unit(F, S, struct, rid, transform=None):
             cond = ("<", elem, lvm)
             okm, _ = equal(mv[4], mk_gamma(cond, elem, lvm))
             oki, _ = equal(ivv[4], mk_gamma(cond, iv, lvi))
-            if okm and oki and ivv == rescan:
+            if okm and oki and ivv == unstrict(rescan):
                 ok = True
             else:
                 why = "the scan does not keep (least value so far, its index) with a strict comparison: value update %s, index update %s" % (show(mv[4])[:80], show(ivv[4])[:80])
